@@ -71,9 +71,20 @@ class C06(AstKindProp):
         kind = r.choice(["class", "function", "argparse"])
         full = r.random() < 0.7
         irj = G.gen_ir(r, rich=r.random() < 0.5, p_typ=1.0 if full else 0.85, p_doc=1.0 if full else 0.85)
+        numlit = False
         if kind == "argparse":
             irj = C04.restrict(self, irj, r)
+            if irj["params"] and r.random() < 0.08:
+                # a Literal of numbers with a negative member (a unary minus in the syntax tree of the type)
+                k = r.randrange(len(irj["params"]))
+                t, ms = r.choice([("Literal[-1, 0, 1]", [-1, 0, 1]), ("Literal[2, -2]", [2, -2]), ("Literal[-0.5, 0.5]", [-0.5, 0.5])])
+                nm, p = irj["params"][k]
+                if not nm.endswith("kwargs"):
+                    irj["params"][k] = (nm, {"typ": t, "doc": p.get("doc") or "the choice", "default": r.choice(ms)})
+                    numlit = True
         opts = {"emit_default_doc": r.random() < 0.6}
+        if numlit:
+            opts["numeric_literal"] = True
         if kind == "function":
             opts.update({"inline_types": r.random() < 0.6, "emit_as_kwonlyargs": r.random() < 0.5, "function_type": r.choice(["static", "self", "cls"])})
             if r.random() < 0.3:
@@ -162,6 +173,8 @@ class C06(AstKindProp):
         return {"options": out, "description": parser.description, "returned_parser": res is parser or (isinstance(res, tuple) and res[0] is parser)}
 
     def corr(self, c, run):
+        if c["opts"].get("numeric_literal"):
+            return []  # (outside the value grammar of the argparse view model: predicate only)
         op = {"op": "view", "kind": c["kind"], "ir": c["ir"], "inline": bool(c["opts"].get("inline_types")), "kwonly": bool(c["opts"].get("emit_as_kwonlyargs")),
               "function_type": c["opts"].get("function_type"), "ir_type": c["opts"].get("ir_type")}  # fmt: skip
         try:
@@ -343,7 +356,8 @@ class C06(AstKindProp):
                 except Exception:
                     members = None
                 if members is not None and (o["choices_v"] or []) != members:
-                    fails.append({"what": "choices differ from the Literal members", "name": n, "want": members, "got": o["choices_v"]})
+                    fails.append({"what": "choices differ from the Literal members", "name": n, "want": members, "got": o["choices_v"],
+                                  "_negative_member_no_choices": any(isinstance(m, (int, float)) and not isinstance(m, bool) and m < 0 for m in members) and not o["choices_v"]})
             if t.startswith("Optional[") and o["required"]:
                 fails.append({"what": "Optional option is required", "name": n})
             if "default" in p and p["default"] not in irutil.NONE_TYPES and o["default"] != rt(p["default"]):
@@ -354,6 +368,9 @@ class C06(AstKindProp):
 
     def classify(self, c, fl):
         what = fl.get("what", "")
+        if fl.get("_negative_member_no_choices"):
+            # (NO choices at all is the recorded defect; SOME of the members is not)
+            return "C06-literal-with-a-negative-member-registers-no-choices"
         if what == "black re-indents the docstring constant":
             return "C06-black-normalises-docstring-indentation"
         if c["kind"] == "function" and what == "parameter without a default is not required in the emitted signature":
@@ -362,6 +379,10 @@ class C06(AstKindProp):
         if base:
             return base
         if c["kind"] == "argparse":
+            if c["opts"].get("numeric_literal"):
+                # the recorded classes are decided on the OTHER entries: the numeric Literal entry has a class of its own
+                # (above), everything else about it is in domain
+                c = dict(c, ir=dict(c["ir"], params=[(n, dict(p, typ="int") if (p.get("typ") or "").startswith("Literal[") and not (p.get("typ") or "").startswith("Literal['") else p) for n, p in c["ir"]["params"]]))
             return C04.classify_kind(self, c, fl)
         if c["kind"] == "class":
             from ..astkinds import C02
